@@ -141,6 +141,16 @@ LOOSE_KINDS = ("Str", "Int", "Float", "Port", "IPv4", "Net", "Host", "Url", "Log
 
 def shape(name, leaf):
     """-> schema spec with the catalogue leaf `leaf` at the positions the shape defines"""
+    if name.endswith("+off"):
+        # the same shape with a feature flag that is off at the root and in every nested schema: whole-configuration
+        # validation is skipped there, everything judged at assignment time must still hold
+        spec = shape(name[:-4], leaf)
+        flag = ["ff", {"k": "Flag", "o": {"default": False}}]
+
+        def add(sp):
+            sp["fields"] = [list(flag)] + [[k, (add(dict(f)) if f["k"] in ("Schema", "CType") else f)] for k, f in sp["fields"]]
+            return sp
+        return add(spec)
     if name.endswith("+late"):
         # the same shape, but every field of the leaf kind joins the schema only after the schema has been used
         # (a configuration built, rendered, loaded; fields enumerated; parser and stub generated)
